@@ -198,6 +198,7 @@ BUILTINS = {'len', 'range', 'int', 'float', 'complex', 'abs', 'sum', 'max', 'min
             'dir', 'eval', 'super', 'property', 'object', 'bool', 'dict', 'set', 'any', 'all', 'map', 'divmod',
             'ValueError', 'TypeError', 'AssertionError', 'NotImplementedError', 'Exception', 'ImportError',
             'ModuleNotFoundError', 'slice', 'id', 'iter', 'next', 'repr', 'open', 'callable', 'globals', 'vars', 'locals',
-            'KeyError', 'IndexError', 'RuntimeError', 'AttributeError'}
+            'KeyError', 'IndexError', 'RuntimeError', 'AttributeError', 'setattr', 'frozenset', 'staticmethod', 'classmethod',
+            'filter', 'ZeroDivisionError', 'OverflowError', 'StopIteration', 'bytes', 'ord', 'chr', 'hash', 'format', 'delattr'}
 
 
